@@ -453,3 +453,64 @@ theorem fmtFloat_inf_lexes (k : Kind) (ty : Option FloatType) (hk : k.floatType?
     exact token_of_float_ok (b := 49) inc (by decide) hlf
 
 end RsslVerif.Model.LitFormat
+
+namespace RsslVerif.Model.Lexer
+open RsslVerif.Gen.LexTables RsslVerif.Spec
+set_option linter.unusedSimpArgs false
+
+/-- `-` directly followed by a digit is the token `Minus` (the digit starts the next token): how a negative literal,
+printed as `-` applied to the magnitude, is read back -/
+theorem minus_before_digit (d : UInt8) (r : Bytes) (hd : 48 ≤ d.toNat ∧ d.toNat ≤ 57) (inc : Bool) :
+    tokenIntermediate (45 :: d :: r) inc = .ok (d :: r, .simple .Minus) := by
+  have h61 : d.toNat ≠ 61 := by omega
+  have h45 : d.toNat ≠ 45 := by omega
+  have hne60 : ¬ (60 : UInt8) = d := by intro h; subst h; simp at hd
+  cases inc <;>
+  simp [tokenIntermediate, tokenStep, isIdentStart, headerName, delimited, choose, tokenChoice, runSub, whitespaceSimple,
+    whitespaceEndline, lineComment, blockComment, literalString, stripPrefix?, otherTokenChars, ErrAt.len, h61, h45]
+
+
+end RsslVerif.Model.Lexer
+
+namespace RsslVerif.Model.LitFormat
+open RsslVerif.Model.Lexer RsslVerif.Spec RsslVerif.Gen.LexTables
+set_option linter.unusedSimpArgs false
+
+set_option exponentiation.threshold 2000 in
+/-- **fmtFloat_negative**: a finite negative value (sign bit set, magnitude `mag`; `Display` writes `-` followed by the
+digits of the magnitude) is printed as `-` followed by exactly the text of the magnitude — except `-2^63`, whose
+magnitude is printed exactly (`-9223372036854775808.0`) while `+2^63` saturates. -/
+theorem fmtFloat_negative (k : Kind) (ty : Option FloatType) (hk : k.floatType? = some ty) (msl : Bool)
+    (mag : Nat) (hfin : mag < k.fmt.infBits) (hmax : ¬ (k = .f32 ∧ msl = true ∧ mag = k.fmt.infBits - 1))
+    (h63 : wholeValue? k.fmt mag ≠ some (2 ^ 63)) (disp : Bytes) :
+    fmtFloat k msl (signBit k.fmt + mag) (45 :: disp) =
+      (match fmtFloat k msl mag disp with
+       | .ok t => .ok (45 :: t)
+       | .error e => .error e) := by
+  obtain ⟨_, hfmt, _, _, _⟩ := kind_facts k ty hk
+  have hsb := signBit_gt k.fmt hfmt
+  have hmod : (signBit k.fmt + mag) % signBit k.fmt = mag := by
+    rw [Nat.add_mod_left]; exact Nat.mod_eq_of_lt (by omega)
+  have hneg : signBit k.fmt ≤ signBit k.fmt + mag := by omega
+  rw [fmtFloat_finite k ty hk msl mag hfin hmax disp]
+  unfold fmtFloat
+  simp only [hmod, hneg, decide_true, Nat.not_lt.mpr (Nat.le_of_lt hfin), Nat.ne_of_lt hfin, if_false]
+  simp only [Bool.true_eq_false, false_and, and_false, if_false, and_true]
+  by_cases h0 : mag = 0
+  · subst h0
+    have hw : wholeValue? k.fmt 0 = some 0 := by
+      rcases hfmt with hf | hf <;> rw [hf] <;>
+        simp [wholeValue?, Dec2Bin.decode, Dec2Bin.binary64, Dec2Bin.binary32]
+    rw [hw]
+    simp [decText, decDigits, decDigitsRev, digitByte, dotZero]
+  · rw [if_neg h0]
+    cases hw : wholeValue? k.fmt mag with
+    | none => simp
+    | some n =>
+      have hn63 : n ≠ 2 ^ 63 := by intro h; subst h; exact h63 hw
+      by_cases hn : n ≤ 2 ^ 63
+      · have hmin : Nat.min n (2 ^ 63 - 1) = n := Nat.min_eq_left (by omega)
+        simp [hn, hmin]
+      · simp [hn]
+
+end RsslVerif.Model.LitFormat
